@@ -973,6 +973,7 @@ fn main() {
             "sem" => sem(&t),
             "prim" => prim(&t),
             "big" => big::big(&t),
+            "bigq" => big::bigq(&t),
             "drop" => {
                 st.objs.remove(&num(t[1])?);
                 Ok("ok".into())
